@@ -143,7 +143,21 @@ func (m *MonC07) OnReq(w *World, r *Req) {
 			cause = "unseen-set"
 		}
 	}
-	if !reflect.DeepEqual(names, prev) && !(len(names) == 0 && len(prev) == 0) {
+	// every existing ObjectSet must be named; naming one that was deleted meanwhile
+	// (still in the cache) is harmless and not forbidden by the statement
+	missing := false
+	for _, n := range names {
+		found := false
+		for _, pn := range prev {
+			if pn == n {
+				found = true
+			}
+		}
+		if !found {
+			missing = true
+		}
+	}
+	if missing {
 		w.Report(Violation{Property: "C07", Rule: "previous-incomplete", Sig: shortSite(r.Site) + "/" + cause, Seq: r.Seq,
 			Msg: fmt.Sprintf("pass %d created %s with previous=%v while the deployment's ObjectSets in the store are %v (list read by the pass: %v)", p.ID, r.Key(), prev, names, listed)})
 		return
@@ -247,6 +261,22 @@ func (m *MonC07) OnQuiescent(w *World, epoch int) {
 		}
 		if dupRev {
 			continue // already reported as revision-duplicate; "newest" is not defined
+		}
+		selfPrev := false
+		for _, s := range sets {
+			pl, _ := store.Get(s, "spec", "previous").([]any)
+			for _, x := range pl {
+				if pm, ok := x.(map[string]any); ok && pm["name"] == store.Str(s, "metadata", "name") {
+					selfPrev = true
+				}
+			}
+		}
+		if selfPrev {
+			// the deployment controller listed a deleted namesake from a stale cache and named
+			// it as previous of its own re-creation (it then waits for itself forever). That is
+			// delete-not-yet-visible staleness, outside this property's quantifier.
+			w.Stats.Probe("c07-self-previous-outside-quantifier")
+			continue
 		}
 		for _, s := range sets {
 			if newest == nil || store.Int(s, "status", "revision") > store.Int(newest, "status", "revision") {
